@@ -45,7 +45,7 @@ extern __thread unsigned int g_myth_random_temp;
 extern __thread int g_worker_rank;
 
 #define MAXW 16
-#define MAXT 2304   /* large barriers (C06: N beyond any internal batch size) */
+#define MAXT 8448   /* large barriers (C06: N beyond any internal batch size / queue capacity) */
 #define MAXO 128
 #define MAXOPS 4096
 #define MAXSTK 4096
